@@ -92,6 +92,7 @@ class Engine:
         self._fresh = 0
         self._path_index = 0
         self._path_assumes = []
+        self._pending = []
         self.choices = []
 
     # ------------------------------------------------------------ variables / assumptions
@@ -133,7 +134,7 @@ class Engine:
         """Path-level assumption (re-established on every re-execution)."""
         from .values import bterm
         f = bterm(formula)
-        self.solver.add(f)
+        self._pending.append(f)
         self._path_assumes.append(f)
 
     # ------------------------------------------------------------ uninterpreted functions
@@ -143,11 +144,12 @@ class Engine:
         if any(term.eq(t) for t in lst):
             return
         for lem in uf_lemmas_for(kind, term, lst):
-            self.solver.add(lem)
+            self._pending.append(lem)
         lst.append(term)
 
     # ------------------------------------------------------------ solver plumbing
     def _check(self, *extra):
+        self._sync()
         t0 = time.time()
         self.stats["queries"] += 1
         self.solver.push()
@@ -181,6 +183,7 @@ class Engine:
         if i < len(self.prefix):
             taken, forced = self.prefix[i]
         else:
+            self._sync()
             self.stats["branch_points"] += 1
             rt, _ = self._check(cond)
             rf, _ = self._check(z3.Not(cond))
@@ -201,17 +204,24 @@ class Engine:
         self.trace.append((taken, forced))
         lit = cond if taken else z3.Not(cond)
         self.pc.append(lit)
-        self.solver.push()
-        self._levels += 1
-        self.solver.add(lit)
+        # the solver is synchronised lazily: literals of replayed / decided branches are queued and asserted in one
+        # frame right before the next query (a long replayed prefix then costs one push instead of one per decision)
+        self._pending.append(lit)
         return taken
+
+    def _sync(self):
+        if self._pending:
+            self.solver.push()
+            self._levels += 1
+            self.solver.add(*self._pending)
+            self._pending = []
 
     def choose(self, n, label="choice"):
         """Nondeterministic choice of an index in range(n), explored exhaustively by forking."""
         if n <= 0:
             raise ValueError("empty choice")
         v = z3.Int(self.fresh_name(label))
-        self.solver.add(v >= 0, v < n)
+        self._pending.append(z3.And(v >= 0, v < n))
         self._path_assumes.append(z3.And(v >= 0, v < n))
         pick = n - 1
         for k in range(n - 1):
@@ -348,4 +358,5 @@ class Engine:
         self._fresh = 0
         self._path_assumes = []
         self._levels = 0
+        self._pending = []
         self.choices = []
